@@ -223,7 +223,8 @@ func c09Sort(x *mc.Exec) {
 	case k.Type == j.AttrTypeString:
 		alpha = []any{"a", "ab", "b"}
 	case k.Type == j.AttrTypeTime:
-		alpha = []any{TimeAlph[1], TimeAlph[4], TimeAlph[2]}
+		// the same instant in two zones must tie; a later instant
+		alpha = []any{TimeAlph[4], TimeAlph[4].UTC(), TimeAlph[4].Add(1)}
 	default:
 		alpha = []any{base[2%len(base)], base[0], base[3%len(base)]} // -1 (or 2), 0, max
 	}
